@@ -63,6 +63,10 @@ def plan(tier, seed):
     for tab in ("near", "huge", "tiny"):
         for a, b in E.chunks(720, 180):
             shards.append(("strictx", 4, tab, a, b))
+    # class identifiers that are not 0..K-1
+    for a, b in E.chunks(720, 180):
+        shards.append(("strictlab", 4, a, b))
+    shards.append(("knnlab", 3, 0, 64, "light"))
     for regime in ("near", "huge", "tiny"):
         for mt in ("euclidean", "squared_euclidean", "manhattan"):
             shards.append(("featx", mt, 4, regime))
@@ -126,6 +130,26 @@ def programs(shard, seed):
             for lab in E.labelings(n):
                 yield {"model": "SupervisedOPF", "mode": "pre", "W": W,
                        "labels": list(E.rename_classes(lab, seed))}
+    elif kind == "strictlab":
+        _, n, a, b = shard
+        ne = n * (n - 1) // 2
+        table = E.value_table(seed, ne)
+        for ranks in list(itertools.permutations(range(ne)))[a:b]:
+            W = E.matrix_from_ranks(n, ranks, table).tolist()
+            for lab in E.labelings(n):
+                yield {"model": "SupervisedOPF", "mode": "pre", "W": W, "labels": list(E.spread_classes(lab))}
+    elif kind == "knnlab":
+        _, n, a, b, mode = shard
+        pts = E.lattice("1d", seed)
+        for si in range(a, b):
+            seq = E.sequence_at(len(pts), n, si)
+            X = [list(pts[i]) for i in seq]
+            for lab in E.labelings(n):
+                for shift in ((1, 2, 3), (0, 2, 3), (5, 7, 300)):
+                    lab2 = [shift[v] for v in lab]
+                    for max_k in range(1, n):
+                        yield {"model": "KNNSupervisedOPF", "mode": "features", "X": X, "metric": "euclidean",
+                               "labels": lab2, "val": {"X": X, "labels": lab2}, "max_k": max_k}
     elif kind == "strictx":
         _, n, tab, a, b = shard
         ne = n * (n - 1) // 2
